@@ -93,6 +93,7 @@ def plant_twins(rng, d1, d2):
         t = c08.permuted_twin(r) if k < 0.7 else c08.first_coefficient_twin(r)
         return (r, t) if t else None
 
+    saved = ([list(d1[k]) for k in ("a", "g")], [list(d2[k]) for k in ("a", "g")])
     shared_in = [v for v in d1["inv"] if v in d2["inv"]]
     pairs = []
     if d2["a"]:
@@ -112,7 +113,8 @@ def plant_twins(rng, d1, d2):
     try:
         gen.mk_contract(d1), gen.mk_contract(d2)
     except ValueError:
-        pass
+        # the planted rows made one of the contracts unsatisfiable: the pair stays as it was generated
+        (d1["a"], d1["g"]), (d2["a"], d2["g"]) = saved
 
 
 def sibling(d1, d2):
@@ -143,13 +145,19 @@ def run_case(case):
     for j, (keep, simp, order) in enumerate(case["cfgs"], 1):
         if case.get("only_event") and case["only_event"] != j:
             continue
-        c1, c2 = gen.mk_contract(d1), gen.mk_contract(d2)
+        try:
+            c1, c2 = gen.mk_contract(d1), gen.mk_contract(d2)
+        except ValueError:
+            break       # an operand that cannot be built (only a tree under test that refuses satisfiable contracts gets here): no event
         if case["swap"]:
             c1, c2 = c2, c1
         evs.append(ops.ev_compose(c1, c2, keep, simp, order, ["sound", "itf"]))
     if sib and not case["id"] % 2:
         sib_event()
-        c1, c2 = gen.mk_contract(d1), gen.mk_contract(d2)
+        try:
+            c1, c2 = gen.mk_contract(d1), gen.mk_contract(d2)
+        except ValueError:
+            return {"id": case["id"], "ev": evs}
         keep, simp, order = case["cfgs"][0]
         evs.append(ops.ev_compose(c2 if case["swap"] else c1, c1 if case["swap"] else c2, keep, simp, order, ["sound", "itf"]))
     return {"id": case["id"], "ev": evs}
